@@ -270,6 +270,47 @@ def ob_cpu_count(os_cpus: int, os_none: bool, aff: int, has_aff: bool, loky: int
     return H.verdict(r == exp and r >= 1, "cpu_count()=%r expected %r" % (r, exp))
 
 
+def ob_cpu_count_twice(os_cpus: int, aff1: int, aff2: int, loky1: int, loky2: int, has_loky: bool) -> bool:
+    """
+    pre: 1 <= os_cpus <= 64
+    pre: 1 <= aff1 <= 64 and 1 <= aff2 <= 64
+    pre: 1 <= loky1 <= 64 and 1 <= loky2 <= 64
+    post: _
+    """
+    H.enter()
+    # the environment changes between two calls (taskset / LOKY_MAX_CPU_COUNT set later): the second answer must
+    # reflect the second environment
+    import joblib.externals.loky.backend.context as ctx
+    state = {"aff": aff1, "loky": loky1}
+    fos = types.SimpleNamespace()
+    fos.cpu_count = lambda: os_cpus
+    fos.sched_getaffinity = lambda pid: _Sized(state["aff"])
+
+    class _Env(dict):
+        def get(self, k, d=None):
+            if k == "LOKY_MAX_CPU_COUNT" and has_loky:
+                return state["loky"]
+            return d
+    fos.environ = _Env()
+    fos.path = types.SimpleNamespace(exists=lambda pth: False)
+    with _Patch() as p:
+        p.set(ctx, "os", fos)
+        p.set(ctx, "warnings", _Shim(ctx.warnings, warn=lambda *a, **k: None))
+        if hasattr(ctx._cpu_count_user, "cache_clear"):
+            ctx._cpu_count_user.cache_clear()
+        r1 = ctx.cpu_count()
+        state["aff"], state["loky"] = aff2, loky2
+        r2 = ctx.cpu_count()
+
+    def want(aff, loky):
+        b = os_cpus if os_cpus < aff else aff
+        if has_loky and loky < b:
+            b = loky
+        return b if b >= 1 else 1
+    ok = r1 == want(aff1, loky1) and r2 == want(aff2, loky2)
+    return H.verdict(ok, "cpu_count() gave %r then %r, expected %r then %r" % (r1, r2, want(aff1, loky1), want(aff2, loky2)))
+
+
 def ob_nested(level: int) -> bool:
     """
     pre: 0 <= level <= 3
@@ -406,6 +447,11 @@ def obligations(tier, seed):
     obs.append({"name": "cpu_count", "fn": "ob_cpu_count", "timeout": 240,
                 "bounds": "os.cpu_count() None or 1..512, affinity 1..512 or absent, LOKY_MAX_CPU_COUNT -4..600 or "
                           "unset, cgroup limit 1..600 / 'max' / absent"})
+    obs.append({"name": "cpu_count_twice", "fn": "ob_cpu_count_twice", "timeout": 240,
+                "bounds": "two consecutive cpu_count() calls, affinity / LOKY_MAX_CPU_COUNT changing in between (1..64)"})
+    obs.append({"name": "executor_reuse", "fn": "ob_reuse", "harness": "harness.C10", "mode": "S", "timeout": 300,
+                "bounds": "loky reusable executor: previous / requested workers 1..4, broken, shut down, started, same arguments: "
+                          "the executor handed out has exactly the requested number of workers"})
     obs.append({"name": "lemma/cgroup_ceil_ge1", "fn": "lemma_cgroup_ceil", "kind": "lemma", "timeout": 300,
                 "params": {"upper": False}, "bounds": "1 <= quota, period <= 2^31 (all doubles in range)"})
     if tier == "thorough":
